@@ -14,6 +14,7 @@ waits until the loop is back in _listen() (or found dead).
 """
 import asyncio
 import functools
+import json
 import pickle
 import queue
 import threading
@@ -340,6 +341,14 @@ class PubSubAdapter:
                      namespace=msg['ns'])
         elif m == 'close_room':
             d.update(room=h0._room(msg['room']), namespace=msg['ns'])
+        # the encodings a backend may hand to the listener
+        enc = msg.get('enc', 'pickle')
+        if enc == 'json':
+            return json.dumps(d)
+        if enc == 'jsonbytes':
+            return json.dumps(d).encode()
+        if enc == 'dict':
+            return d
         return pickle.dumps(d)
 
     def apply(self, a):
@@ -676,3 +685,10 @@ CONFIGS['ps_listener_fault_quick'] = dict(
     transports=['t2'], host_of={'t2': 'h2'},
     inject=[junk_msg('pint'), junk_msg('emitnoevent'), {'method': 'fault'},
             junk_msg('garbage')])
+# a valid message from a foreign host in every encoding a backend may deliver
+_FE = lambda enc: {'method': 'emit', 'host': FOREIGN, 'ev': 'msg',
+                   'data': 'v1', 'ns': '/', 'toKind': 'none', 'to': [],
+                   'skipKind': 'none', 'skip': [], 'cb': [], 'enc': enc}
+CONFIGS['ps_listener_enc_quick'] = dict(
+    _LST, max_chan=1,
+    inject=[_FE('pickle'), _FE('json'), _FE('jsonbytes'), _FE('dict')])
